@@ -13,7 +13,7 @@ Init == /\ kind \in Kinds /\ worker \in Workers /\ mutates \in BOOLEAN
         /\ pc = "submitted" /\ callerVal = 0 /\ bodyVal = 0 /\ reported = FALSE
         /\ storedUnder = "none" /\ origId = "id0"
 (* does the body work on the caller's object (aliasing) ? *)
-Aliased == /\ worker = "debug" /\ kind # "file-copy"
+Aliased == kind = "file-any" \/ (worker = "debug" /\ kind # "file-copy")   \* files are shared by path whatever the worker
 IdOf(v) == IF v = 0 THEN "id0" ELSE "id1"
 Body == /\ pc = "submitted"
         /\ bodyVal' = IF mutates THEN 1 ELSE 0
